@@ -263,14 +263,19 @@ def main(ck, tier, w):
     def tjob(i):
         r0 = random.Random('%d-c15T-%d' % (seed, i))
         era = r0.choice([24, 25, 26, 30])
-        h0 = 210000 * era - r0.choice([0, 1, 2, 3])
+        h0 = 210000 * era - r0.choice([0, 1, 2, 3, 1, 2])
         rew = (50 * 10 ** 8) >> era
         blocks, prev = [], b'\0' * 32
         n = r0.choice([3, 8, 25] if quick else [5, 40, 150])
         for k in range(n):
             txs = [btc.coinbase(h0 + k, None, outs=[{'val': r0.choice([rew, rew + 1, rew - 1, rew * 2, 0, rew + 500]), 'spk': spk(r0.choice(list(LABEL)), r0)}] +
                                 [{'val': 3, 'spk': b'\x6a' + btc.push(b'x')}] * r0.randrange(0, 2))]
-            for j in range(r0.randrange(0, 5)):
+            # blocks without any coinbase-shaped transaction (in particular the one at the halving height): nothing in the
+            # definition of the fee total depends on which blocks have one
+            nocb = ((h0 + k) % 210000 == 0 and i % 2 == 0) or r0.random() < 0.15
+            if nocb:
+                txs = []
+            for j in range(r0.randrange(1 if nocb else 0, 5)):
                 first = [{'txid': b'\0' * 32, 'idx': 0xffffffff, 'sig': b'', 'seq': 0}] if r0.random() < 0.3 else []
                 txs.append({'ver': 1, 'ins': first + [{'txid': r0.randbytes(32), 'idx': 0, 'sig': r0.randbytes(r0.choice([0, 10, 10, 90])), 'seq': 0}] * r0.randrange(1, 4),
                             'outs': [{'val': r0.choice([0, 7, 500, 500, 999]), 'spk': r0.choice([spk(t, r0) for t in LABEL] + [b'\x51', b'', b'\x00\x14' + r0.randbytes(20)])}
